@@ -25,7 +25,7 @@ RULE = (
     "1-2 subscribers, resolved before or after subscription with a result from V / an exception / cancellation, or the first "
     "subscriber unsubscribes first; oracle: [N(result), C] / [E(that exception)] / [E(CancelledError)] / nothing and "
     "future.cancelled(). blocking: a finite synchronous sequence (of / from_iterable / create / concat with throw; 0..4 values "
-    "from V incl. None and falsy, ending in C or E) or a virtual-time cold source, consumed by ops.to_future (explicit ctor, "
+    "from V incl. None and falsy, ending in C or E) or a virtual-time cold source, consumed by ops.to_future (explicit asyncio ctor, concurrent.futures.Future ctor, "
     "default ctor inside a running loop, fluent), Observable.__await__ inside a coroutine, Observable.run / reactivex.run on "
     "CurrentThreadScheduler, ImmediateScheduler and the default (new-thread) scheduler; oracle: last element (by identity) / "
     "the sequence's error (by identity) / SequenceContainsNoElementsError. start: start(func, virtual scheduler) / "
@@ -41,7 +41,7 @@ RULE = (
 ASSUMPTIONS = [
     "blocking bridges are called from a helper thread joined with a 20 s wall-clock limit; a bridge still blocked then is reported as a violation (finite synchronous sources cannot legitimately block)",
     "asyncio loops are created per case, driven only by run_until_complete over zero-delay work, and closed; helper threads started by the default scheduler are joined before the case returns",
-    "to_future is given asyncio futures only (its documented type); from_future is given both asyncio and concurrent futures",
+    "to_future is given asyncio futures and, through future_ctor, concurrent.futures.Future (same set_result/set_exception/cancelled protocol); from_future is given both",
     "a future cancelled by unsubscription is judged by future.cancelled() only",
 ]
 
@@ -224,7 +224,7 @@ def _run_blocking(case):
     loop = None
     lab = None
     try:
-        if bridge == "to_future_cold":
+        if bridge in ("to_future_cold", "to_future_concurrent_cold"):
             lab = Lab()
             tl = [[i + 1, "N", n] for i, n in enumerate(case["vals"])]
             tl.append([len(tl) + 1, "E" if case["end"] == "E" else "C", "seq-error" if case["end"] == "E" else None])
@@ -240,12 +240,14 @@ def _run_blocking(case):
             e = fut.exception()
             return ("raise", e) if e is not None else ("value", fut.result())
 
-        if bridge in ("to_future_ctor", "to_future_fluent", "to_future_cold"):
+        if bridge in ("to_future_ctor", "to_future_fluent", "to_future_cold", "to_future_concurrent", "to_future_concurrent_cold"):
             loop = asyncio.new_event_loop()
             made = []
+            concurrent_kind = "concurrent" in bridge
 
             def ctor():
-                f = loop.create_future()
+                # future_ctor may build any future; a concurrent.futures.Future needs no loop
+                f = concurrent.futures.Future() if concurrent_kind else loop.create_future()
                 made.append(f)
                 return f
 
@@ -334,7 +336,7 @@ def _show(got):
 
 _blocking = st.fixed_dictionaries(
     {
-        "bridge": st.sampled_from(["to_future_ctor", "to_future_fluent", "to_future_cold", "to_future_running", "await", "run_current", "run_immediate", "run_default", "run_fn_default", "run_fn_current"]),
+        "bridge": st.sampled_from(["to_future_ctor", "to_future_fluent", "to_future_cold", "to_future_concurrent", "to_future_concurrent_cold", "to_future_running", "await", "run_current", "run_immediate", "run_default", "run_fn_default", "run_fn_current"]),
         "src": st.sampled_from(["of", "iter", "create"]),
         "vals": st.lists(st.sampled_from(NAMES), max_size=4),
         "end": st.sampled_from(["C", "C", "E"]),
